@@ -146,6 +146,9 @@ def run(ctx):
 
 
 def _run(ctx):
+    # fifth stage: the probe that hands event-loop managers to pipes, per thread (freeze / thaw sections)
+    from checks import c06_pmprobe
+    c06_pmprobe.run_part(ctx)
     run_queue(ctx)
     run_xfer(ctx)
     # third stage: the worker pipes built on both (checks/c06_worker.py)
@@ -267,6 +270,9 @@ def replay(ctx, rp):
     if str(rp.get("replay", {}).get("stage", "")).startswith("pthread"):
         from checks import c06_pthread
         return c06_pthread.replay(ctx, rp)
+    if rp.get("replay", {}).get("stage") == "pmprobe":
+        from checks import c06_pmprobe
+        return c06_pmprobe.replay(ctx, rp["replay"])
     if rp.get("replay", {}).get("stage") == "worker":
         from checks import c06_worker
         return c06_worker.replay(ctx, rp)
